@@ -188,8 +188,10 @@ func driveC03(t *testing.T, out *vEmitter) {
 			return r
 		}
 		nA := 3
+		// application URLs with and without colons (times, IPv6 literals, key:value) in path and query
+		rds := []string{"/a1?x=0", "/reports?from=08:00&to=09:30", "/cal/2024-01-01T10:30:00/k:v?x=1"}
 		for i := 0; i < nA; i++ {
-			logins = append(logins, startIn(A, fmt.Sprintf("A%d", i+1), fmt.Sprintf("/a%d?x=%d", i+1, i)))
+			logins = append(logins, startIn(A, fmt.Sprintf("A%d", i+1), rds[i%len(rds)]))
 		}
 		logins = append(logins, startIn(B, "B1", "/b1"))
 		foreign := startIn(X, "X1", "/x1") // state and cookie of the other deployment
@@ -284,6 +286,11 @@ func driveC03(t *testing.T, out *vEmitter) {
 			i     int
 		}{{"value0", 0}, {"valueMid", p1 / 2}, {"ts", p1 + 2}, {"sig0", p2 + 1}, {"sigMid", p2 + 20}} {
 			sets = append(sets, cs{"A1-tampered-" + pos.label, []*http.Cookie{{Name: logins[0].cookie.Name, Value: vFlip(v, pos.i)}}})
+		}
+		// bytes appended after the signature field (everything before it untouched)
+		// (a trailing space or control byte would be removed or refused by HTTP header parsing before the proxy sees it)
+		for _, ext := range []string{"A", "=", "==", "AAAA", "%20", "|", "|x", "-_"} {
+			sets = append(sets, cs{"A1-sig-extended", []*http.Cookie{{Name: logins[0].cookie.Name, Value: v + ext}}})
 		}
 		if ts, err := strconv.ParseInt(v[p1+1:p2], 10, 64); err == nil {
 			// only the plain-text timestamp edited, staying inside the validity window
